@@ -167,7 +167,7 @@ ADDED = {
            'mnemonic list by which _dis rejects or sizes an operand form is consulted by the same branch of the assembler; D8: x87 st(i) rows pass check_size_modif (evaluated) with the size '
            'the parser gives st(i) and agree with the implicit-operand lists; D3: every renamed row copy the decoder uses is a name the assembler finds.',
     'C04': ' Also (D7): CF and OF of mul/imul are computed from the double-width product (the high half; for the signed forms compared with the sign extension of the low half), decided on '
-           'the lifted templates of every operand form.',
+           'the lifted templates of every operand form; (D8) aaa/aas/daa/das: the lifted assignments evaluated on every al x AF x CF x 5 values of ah equal the SDM pseudo-code.',
     'C05': ' Also (D4/D5): rewrites are selected by their action; constant folding demands equal widths of associative operands only; every tab_size_int[K] lookup of the simplifier is '
            'dominated by a membership test, by an isinstance(.., ExprInt) on the value or an operand of it, or ranges over the table keys (no KeyError on 4/24/31-bit slices).',
     'C06': ' Also: operators the lifter builds with operands of different widths and evaluable operands are exempt from the operand-type check (op_size_no_check names only real operators); '
